@@ -93,6 +93,7 @@ func runC07(c *Ctx, r *Rec) {
 	}
 	info := cr.info
 	L, E, G := k(cr.L), k(cr.E), k(cr.G)
+	shapeLints(c, r, fileFuncs(c, "agent", cr.n))
 
 	// ---- D1 leaves
 	nleaves := 0
